@@ -649,7 +649,11 @@ def finish(pid, tier, seed, t0, P, results, violations, known_hits, plan, note=N
         "violations": len(violations),
     }
     write_evidence(pid, ev)
+    printed = set()
     for k, desc in known_hits:
+        if k["signature"] in printed:
+            continue
+        printed.add(k["signature"])
         print(f"KNOWN-FINDING: property={pid} {k['what']}")
     for rp, suffix, desc in violations:
         log(f"violation: {desc}")
